@@ -38,7 +38,26 @@ type input func() (ways osm.Ways, rels osm.Relations, ds *osm.HistoryDatasource)
 // option sets the annotation runs under (index into optSets)
 var optNames = []string{"default", "ignore-inconsistency", "ignore-missing-children", "ignore-both+threshold"}
 
+// option sets >= reannotate: the parents are annotated once under the default
+// options and then AGAIN with ChildFilter selecting the children whose bit is
+// set in (i - reannotate) -- the documented incremental workflow; the result
+// judged is the one after the second pass.
+const reannotate = 100
+
+func optName(i int) string {
+	if i >= reannotate {
+		return fmt.Sprintf("reannotate-with-child-filter-mask=%b", i-reannotate)
+	}
+	return optNames[i]
+}
+
 func optSet(i int) []annotate.Option {
+	if i >= reannotate {
+		mask := i - reannotate
+		return []annotate.Option{annotate.ChildFilter(func(fid osm.FeatureID) bool {
+			return mask>>uint(fid.Ref()-1)&1 == 1
+		})}
+	}
 	switch i {
 	case 1:
 		return []annotate.Option{annotate.IgnoreInconsistency(true)}
@@ -55,6 +74,17 @@ func run(in input, opt int) result {
 	var err error
 	var res result
 	var lists []osm.Updates
+	if opt >= reannotate {
+		if ways != nil {
+			err = annotate.Ways(context.Background(), ways, ds)
+		} else {
+			err = annotate.Relations(context.Background(), rels, ds)
+		}
+		if err != nil {
+			res.err = "error"
+			return res
+		}
+	}
 	if ways != nil {
 		err = annotate.Ways(context.Background(), ways, ds, optSet(opt)...)
 		for _, w := range ways {
@@ -102,7 +132,7 @@ func run(in input, opt int) result {
 func scenario(name, fam string, nchildren int, in input, opt int) vexplore.Scenario {
 	var ref *result
 	if opt != 0 {
-		name += " opts=" + optNames[opt]
+		name += " opts=" + optName(opt)
 	}
 	return vexplore.Scenario{Name: name, Family: fam, Bound: 0, OnlyChildBelow: true,
 		New: func() (func(), func(*vsched.Outcome) ([]vexplore.Finding, string, bool)) {
@@ -268,7 +298,7 @@ func lateChild(kinds []int) input {
 
 func main() {
 	kit.Main("C12", "model_checking", func(r *kit.Run) {
-		r.Rule("every iteration order (all n! orders, free explorer choices) of the child map in core.Compute for (i) every history of edit-alphabet spaces (gen/histsim: way over 3 nodes, relation over 4 members, repeated-node churn way) up to the tier's depth and (ii) a stability family: one way version over 2-4 children (one repeated) with 13-24 updates and every pattern of equal one-second timestamps; (iii) a late-child family: two parent versions over 2-3 children whose histories are normal / start after a parent version / contain a deleted version between the parents / are missing / have same-second versions, under four option sets; histories of (i) run under the default options and with IgnoreInconsistency; " +
+		r.Rule("every iteration order (all n! orders, free explorer choices) of the child map in core.Compute for (i) every history of edit-alphabet spaces (gen/histsim: way over 3 nodes, relation over 4 members, repeated-node churn way) up to the tier's depth and (ii) a stability family: one way version over 2-4 children (one repeated) with 13-24 updates and every pattern of equal one-second timestamps; (iii) a late-child family: two parent versions over 2-3 children whose histories are normal / start after a parent version / contain a deleted version between the parents / are missing / have same-second versions, under four option sets; (iv) a re-annotate family: parents annotated once, then again with ChildFilter over every subset of the children; histories of (i) run under the default options and with IgnoreInconsistency; " +
 			"oracle: result identical to the canonical-order result (or both fail) and every update list sorted by (index, timestamp, version); non-vacuous = at least one order choice was made and the history has >= 2 updates; states = execution-tree nodes (order choices), transitions = choices taken")
 		r.Assume("vinst replaces only the map range in compute.go (vsched.MapKeys); outside a controlled execution the canonical order is sorted keys")
 		var scs []vexplore.Scenario
@@ -354,6 +384,28 @@ func main() {
 			}
 		}
 		counts["late-child"] = nlate
+		// re-annotate family: annotate, then annotate again with a ChildFilter
+		// over every subset of the children (skipped children at lower and at
+		// higher indexes than recomputed ones), every map order of both passes
+		nre := 0
+		for si, sh := range shapes {
+			if r.Quick() && si%2 == 1 {
+				continue
+			}
+			same := make([]int, len(sh.later))
+			for mask := 0; mask < 1<<uint(len(sh.later)); mask++ {
+				name := fmt.Sprintf("reannotate list=%v later=%v", sh.list, sh.later)
+				add(scenario(name, fmt.Sprintf("reannotate/%d-children", len(sh.later)), len(sh.later), stability(sh.list, sh.later, same), reannotate+mask))
+				nre++
+			}
+		}
+		for c := 2; c <= 3; c++ {
+			for mask := 0; mask < 1<<uint(c); mask++ {
+				add(scenario("reannotate late-child all-normal", fmt.Sprintf("reannotate/%d-children", c), c, lateChild(make([]int, c)), reannotate+mask))
+				nre++
+			}
+		}
+		counts["reannotate"] = nre
 		r.Set("history_space_depths", counts)
 		sort.SliceStable(scs, func(i, j int) bool { return false })
 		e := &vexplore.Explorer{R: r, Scenarios: scs, Generators: gens}
